@@ -66,7 +66,7 @@ func NewWriter(peerID uint64, subscriptions distributed.SubscriptionsState, loca
 		inflights: ackQueue,
 		encoder:   encoder.New(),
 		queue:     make(chan RoutedMessage, 25),
-		midPool:   newMIDPool(0, 65535),
+		midPool:   newMIDPool(1, 65535),
 	}
 }
 
@@ -167,7 +167,7 @@ func (w *writer) getFree(ctx context.Context) (int32, error) {
 	for retries > 0 {
 		retries--
 		mid := w.midPool.Get()
-		if mid == 0 {
+		if mid < 1 {
 			select {
 			case <-time.After(100 * time.Millisecond):
 				continue
